@@ -631,8 +631,9 @@ class RegExFieldFormat(AbstractFieldFormat):
         super().__init__(field_name, is_allowed_to_be_empty, length, rule, data_format, empty_value="")
         try:
             self.regex = re.compile(rule, re.IGNORECASE | re.MULTILINE)
-        except (re.error, OverflowError) as error:
-            # NOTE: OverflowError is raised for absurd repetition counts, for example "a{99999999999}".
+        except (re.error, OverflowError, RecursionError, ValueError) as error:
+            # NOTE: OverflowError is raised for absurd repetition counts, for example "a{99999999999}",
+            #  RecursionError for too many nested groups and ValueError for incompatible flags like "(?a)(?u)".
             raise errors.InterfaceError(
                 "rule must be a valid regular expression but is %s: %s" % (_compat.text_repr(rule), error)
             )
